@@ -123,6 +123,7 @@ Lemma same_cm_set_pools st p : same_cm st (set_pools st p). Proof. repeat split.
 Lemma same_cm_set_tasks st t : same_cm st (set_tasks st t). Proof. repeat split. Qed.
 Lemma same_cm_set_inflight st t : same_cm st (set_inflight st t). Proof. repeat split. Qed.
 Lemma same_cm_bump_sid st : same_cm st (bump_sid st). Proof. repeat split. Qed.
+Lemma same_cm_set_choices st ch : same_cm st (set_choices st ch). Proof. repeat split. Qed.
 
 Lemma same_cm_enqueue_out st s f : same_cm st (enqueue_out st s f).
 Proof.
@@ -151,10 +152,13 @@ Proof.
     eapply same_cm_trans; [eapply same_cm_dial, E | apply same_cm_set_pools].
 Qed.
 
+Lemma route_plan_slots st ty body : map fst (route_plan st ty body) = map fst body.
+Proof. unfold route_plan. rewrite map_map. reflexivity. Qed.
+
 Lemma same_cm_resolve body : forall st, same_cm st (fst (resolve st body)).
 Proof.
   induction body as [|[slot f] rest IH]; intro st; cbn [resolve]; [apply same_cm_refl|].
-  destruct (slot_master st slot); [|apply same_cm_refl].
+  destruct f as [b|]; [|apply same_cm_refl].
   destruct (find_pool st b) as [p|]; [|apply same_cm_refl].
   pose proof (same_cm_pool_get st p) as Hp.
   destruct (pool_get st p) as [st1 [s|]]; cbn [fst] in *; [|exact Hp].
@@ -457,15 +461,15 @@ Proof.
     destruct (cm_body m) as [|[s0 f0] body]; [exact H|].
     destruct (beqb _ _); eapply local_reply_inv; eassumption.
   - (* forwarded *)
-    pose proof (same_cm_resolve (by_slot (cm_body m)) st) as Hres.
-    destruct (resolve st (by_slot (cm_body m))) as [st1 [targets|e]]; cbn [fst] in Hres.
+    pose proof (same_cm_resolve (route_plan st (cm_type m) (by_slot (cm_body m))) st) as Hres.
+    destruct (resolve st (route_plan st (cm_type m) (by_slot (cm_body m)))) as [st1 [targets|e]]; cbn [fst] in Hres.
     2:{ eapply local_reply_inv; eassumption. }
     destruct Hres as (Rc & Rm & Rn).
     rewrite Rc, Hl.
     set (mid := next_mid st1).
     set (pm := {| pm_client := c; pm_sm := smsg_of m (groups_for m);
                   pm_reqs := map (fun sf : N * cfrag => (fst sf, cf_req (snd sf))) (cm_body m); pm_seq := pc_sent cl; pm_moved := [];
-                  pm_route := map (fun sf : N * cfrag => (fst sf, slot_master st (fst sf))) (by_slot (cm_body m)) |}).
+                  pm_route := route_plan st (cm_type m) (by_slot (cm_body m)) |}).
     set (st2 := bump_mid (set_msg st1 mid pm)).
     pose proof (fold_enqueue_same targets mid st2) as (Fc & Fm & Fn).
     set (st3 := fold_left (fun s (t : N * nat) => enqueue_out s (snd t) (FReq mid (fst t))) targets st2) in *.
@@ -670,7 +674,7 @@ Qed.
 
 Theorem step_inv st e st' : CInvG st None -> step st e = ROk st' -> CInvG st' None.
 Proof.
-  intros H. destruct e as [c adm|c b totals|order|s b|c|s| |s|nodes newslots]; cbn [step].
+  intros H. destruct e as [c adm|c b totals|order|s b|c|s| |s|nodes newslots|ch]; cbn [step].
   - destruct (lookup c (clients st)) as [cl|] eqn:Hl; intro E; inversion E; subst; [exact H|].
     destruct H as [H1 H2]. split; [|exact H2].
     intros c' cl' Hl'. cbn [set_client clients] in Hl'. rewrite lookup_update in Hl'.
@@ -690,6 +694,7 @@ Proof.
     + eapply CInvG_same; [eapply same_cm_trans; [exact Hcm | apply same_cm_set_tasks] | exact H].
     + eapply CInvG_same; [exact Hcm | exact H].
   - intro E. inversion E; subst. eapply CInvG_same; [|exact H]. repeat split.
+  - intro E. inversion E; subst. eapply CInvG_same; [apply same_cm_set_choices | exact H].
 Qed.
 
 Theorem run_inv evs : forall st st', CInvG st None -> run st evs = ROk st' -> CInvG st' None.
